@@ -57,6 +57,10 @@ FIXED = [
     ("C08", "d334c39", "`@dump(1;)@dump(2)` panicked (index out of range [54] with length 54): the token-name table had no entry for DUMP and an empty one for EACH"),
     ("C09", "d334c39", "parser panic through token.String(DUMP) on the render path of the string API"),
     ("C13", "8e11d82", "reported path of a failing page changed after a string evaluation"),
+    ("C13", "b962b4c", "`a\\n{{ 1 +\\n# }}` reported the illegal character on line 2 instead of 3: the unread ILLEGAL token took its end from the previous character (newToken)"),
+    ("C19", "b962b4c", "the ILLEGAL token of an unknown character had an inverted range (end one column before its start, or on the previous line)"),
+    ("C02", "a6d2624", "`A@if(x)@else b @end B` rendered the @else body exactly when x was truthy; `@if(x)a@elseif(y)@else b@end` with y truthy rendered b: the @else/@elseif closing an empty body was parsed into that body together with the branch after it"),
+    ("C03", "a6d2624", "`@each(i in [1])@else none @end` rendered ` none ` and `@each(i in [])@else none @end` rendered nothing; `@for(...)@end` with an empty body was a parse error"),
     ("C17", "d3e3b1f", "`a@dump(nope)b` rendered successfully with the error object (message and, for files, the path) inside the page: evalDumpStmt never tested the argument with isError"),
 ]
 
